@@ -79,6 +79,23 @@ const RESP_BUFS: &[&[u8]] = &[
     b"HTTP/1.0 200 OK\nH1: v1\n\n",
 ];
 
+/// header blocks for parse_headers re-using one array
+const HDR_BUFS: &[&[u8]] = &[
+    b"",
+    b"A",
+    b"A: 1\r\n",
+    b"A: 1\r\nB: 2\r\nC",
+    b"\r\n",
+    b"A: 1\r\n\r\n",
+    b"Bb: 22\nA: 1\n\nrest",
+    b"A: 1\r\nB: 2\r\nC: 3\r\n\r\n",
+    b"A: 1\r\nB: 2\r\nC: 3\r\nD: 4\r\n\r\n",
+    b"A: 1\r\nB C: 2\r\n\r\n",
+    b"A: 1\r\nB: 2\r\nC: \x01\r\n\r\n",
+    b"A:\r\nB: \t \r\n\r\n",
+    b"A: 1\r\n there\r\n\r\n",
+];
+
 fn lenient() -> ParserConfig {
     let mut c = ParserConfig::default();
     c.allow_spaces_after_header_name_in_responses(true);
@@ -120,6 +137,8 @@ fn hdrs(h: &[Header<'_>]) -> Hdrs {
 pub enum Kind {
     Request,
     Response,
+    /// parse_headers called again and again on one caller-owned array
+    Headers,
 }
 
 /// Replays `ops` on one fresh value whose array has `init_cap` slots (uninit entry points get
@@ -134,6 +153,20 @@ fn replay(kind: Kind, init_cap: usize, uninit_cap: usize, ops: &[Op]) -> (Vec<Re
     let mut uninit: Vec<Vec<MaybeUninit<Header<'static>>>> = (0..ops.len()).map(|_| (0..uninit_cap).map(|_| MaybeUninit::uninit()).collect()).collect();
     let mut it = uninit.iter_mut();
     match kind {
+        Kind::Headers => {
+            for op in ops {
+                let buf: &'static [u8] = HDR_BUFS[op.buf as usize];
+                let res = match httparse::parse_headers(buf, &mut arr[..]) {
+                    Ok(Status::Complete((n, h))) => Res::Complete { n, f1: None, f2: None, version: None, code: None, headers: hdrs(h) },
+                    Ok(Status::Partial) => Res::Partial,
+                    Err(e) => Res::Err(format!("{:?}", e)),
+                };
+                untouched.push(true);
+                results.push(res);
+                // what a later call can read: the whole array
+                snaps.push(Snap { hlen: arr.len(), slots: hdrs(&arr), f1: None, f2: None, version: None, code: None });
+            }
+        }
         Kind::Request => {
             let mut r = Request::new(&mut arr[..]);
             for op in ops {
@@ -257,7 +290,7 @@ fn failing_probe(m: &Reuse, s: &HState) -> Option<(Op, Res, Res, &'static str)> 
 /// `headers` referring to the same whole slice, through an uninit entry point leaves it untouched;
 /// a Complete call exposes exactly its headers.
 fn storage_violation(m: &Reuse, s: &HState) -> Option<String> {
-    if s.ops.is_empty() {
+    if s.ops.is_empty() || m.kind == Kind::Headers {
         return None;
     }
     let (results, snaps, untouched) = replay(m.kind, m.cap, m.cap, &s.ops);
@@ -287,6 +320,7 @@ fn entry_disagreement(m: &Reuse, s: &HState) -> Option<(Op, Op, String, String)>
     let nbuf = match m.kind {
         Kind::Request => REQ_BUFS.len(),
         Kind::Response => RESP_BUFS.len(),
+        Kind::Headers => return None,
     };
     let have3 = m.ops.iter().any(|o| o.entry == 3);
     // "same buffer, configuration and capacity": the initialised-array entry points work on the
@@ -354,8 +388,9 @@ fn all_ops(kind: Kind, quick: bool) -> Vec<Op> {
     let n = match kind {
         Kind::Request => REQ_BUFS.len(),
         Kind::Response => RESP_BUFS.len(),
+        Kind::Headers => HDR_BUFS.len(),
     };
-    let entries: &[u8] = if quick { &[0, 1, 2] } else { &[0, 1, 2, 3] };
+    let entries: &[u8] = if kind == Kind::Headers { &[0] } else if quick { &[0, 1, 2] } else { &[0, 1, 2, 3] };
     let mut v = Vec::new();
     for b in 0..n {
         for &e in entries {
@@ -399,7 +434,7 @@ struct Summary {
 fn run_reuse(quick: bool, replay_dir: &str, prop: &str, sum: &mut Summary) {
     let depth_c = if quick { 3 } else { 4 };
     let depth_u = if quick { 2 } else { 3 };
-    for kind in [Kind::Request, Kind::Response] {
+    for kind in [Kind::Request, Kind::Response, Kind::Headers] {
         for cap in [0usize, 1, 2, 3] {
             let mut reached: Vec<BTreeSet<Snap>> = Vec::new();
             for (canonical, depth) in [(true, depth_c), (false, depth_u)] {
@@ -474,6 +509,8 @@ const STREAMS: &[(Kind, &[u8])] = &[
     (Kind::Response, b"HTTP/1.1 200 OK\r\nServer: s\r\nB:\r\n\r\nbody"),
     (Kind::Response, b"HTTP/1.1  200  OK\r\n X : y\r\n z\r\nbad\r\nZ: w\r\n\r\n"),
     (Kind::Response, b"HTTP/1.0 404 N\xf8t\nA: 1\nB: 2\n\n"),
+    (Kind::Headers, b"Host: example\r\nA:  b \r\nC:\r\n\r\nrest"),
+    (Kind::Headers, b"A: 1\nB: 2\nC\x01: 3\n\n"),
 ];
 
 #[derive(Clone, Debug)]
@@ -526,6 +563,18 @@ fn deliver(m: &Delivery, cuts: &[usize]) -> (Vec<Res>, Snap) {
     let mut it = uninit.iter_mut();
     let mut out = Vec::new();
     match kind {
+        Kind::Headers => {
+            for &k in cuts {
+                let buf: &'static [u8] = &bytes[..k];
+                out.push(match httparse::parse_headers(buf, &mut arr[..]) {
+                    Ok(Status::Complete((n, h))) => Res::Complete { n, f1: None, f2: None, version: None, code: None, headers: hdrs(h) },
+                    Ok(Status::Partial) => Res::Partial,
+                    Err(e) => Res::Err(format!("{:?}", e)),
+                });
+            }
+            let snap = Snap { hlen: arr.len(), slots: hdrs(&arr), f1: None, f2: None, version: None, code: None };
+            (out, snap)
+        }
         Kind::Request => {
             let mut r = Request::new(&mut arr[..]);
             for &k in cuts {
@@ -618,6 +667,9 @@ fn run_delivery(quick: bool, replay_dir: &str, sum: &mut Summary) {
     let entries: &[u8] = if quick { &[0, 1, 2] } else { &[0, 1, 2, 3] };
     for stream in 0..STREAMS.len() {
         for &entry in entries {
+            if STREAMS[stream].0 == Kind::Headers && entry != 0 {
+                continue;
+            }
             for (cap, canonical) in [(0usize, true), (1, true), (2, true), (4, true), (1, false), (4, false)] {
                 let model = Delivery { stream, entry, cap, canonical, max_cuts: if quick { 2 } else { 3 } };
                 let checker = model.checker().threads(8).spawn_dfs().join();
@@ -700,11 +752,15 @@ fn replay_file(path: &str) -> i32 {
         }
         return if bad { 1 } else { 0 };
     }
-    let kind = if text.contains("\"message_kind\":\"Request\"") { Kind::Request } else { Kind::Response };
+    let kind = if text.contains("\"message_kind\":\"Request\"") { Kind::Request } else if text.contains("\"message_kind\":\"Headers\"") { Kind::Headers } else { Kind::Response };
     let cap = get_num(&text, "capacity").unwrap() as usize;
     let flat = get_list(&text, "ops");
     let ops: Vec<Op> = flat.chunks(2).map(|c| Op { buf: c[0] as u8, entry: c[1] as u8 }).collect();
-    let bufs = if kind == Kind::Request { REQ_BUFS } else { RESP_BUFS };
+    let bufs = match kind {
+        Kind::Request => REQ_BUFS,
+        Kind::Response => RESP_BUFS,
+        Kind::Headers => HDR_BUFS,
+    };
     println!("replaying history on one {:?} value, capacity {}:", kind, cap);
     for o in &ops {
         println!("  op: entry {} on {:?}", o.entry, printable(bufs[o.buf as usize]));
